@@ -13,7 +13,7 @@ import Py4hwV.Lib.SeqNet
      DualPort aw,dw / ra_a,wa_a,we_a,wd_a,ra_b,wa_b,we_b,wd_b
      AutoReset (no params) / 0
      net <Block> | <params> |          -> the netlist builder of Lib/SeqNet.lean rendered (kinds | regs | order | widths)
-       TReg hasE,hasR   Counter w,hasReset,hasInc   StepUp w,sw,hasReset,hasInc   Delay w,delay,hasEn,hasReset   Edge dir   Srb w,depth -/
+       TReg hasE,hasR   Counter w,hasReset,hasInc   StepUp w,sw,hasReset,hasInc   Delay w,delay,hasEn,hasReset   Edge dir   Srb w,depth   Stack w,depth   Pipe w0,w1,.. -/
 open Proto Lib
 
 def g (l : List Int) (k : Nat) : Int := l.getD k 0
@@ -75,6 +75,8 @@ def handle (line : String) : String :=
     | ["net", "Delay"] => (C09N.delayNet ⟨gn p 0, gn p 1, gb p 2, gb p 3⟩).render
     | ["net", "Edge"] => (C09N.edgeNet (match gn p 0 with | 0 => .pos | 1 => .neg | _ => .both)).render
     | ["net", "Srb"] => (C09N.srbNet (gn p 0) (gn p 1)).render
+    | ["net", "Stack"] => (C09N.stackNet (gn p 0) (gn p 1)).render
+    | ["net", "Pipe"] => (C09N.pipeNet (p.map Int.toNat)).render
     | ["net", "StepUp"] => (C09N.stepNet (gn p 0) (gn p 1) (gb p 2) (gb p 3)).render
     | ["run", "AutoReset"] =>
       both autoReset Spec.autoReset one (h.map fun _ => ())
